@@ -1,7 +1,83 @@
+import MythVerif.Model.Ledger
+import MythVerif.Model.SizeClass
 import Driver.Util
-/-! `drv_alloc`: stub, to be filled in -/
+/-! `drv_alloc`: (1) trace acceptor for the allocation ledger (DESC_GET/FREE, STACK_GET/FREE with
+raw block addresses): one `Ledger` per block class; every `get` must hand out exactly the block
+the model predicts (the head of that worker's free list, else a fresh one) and every release must
+be of a block in use.  (2) with argument `sizeclass`: `idx <n>` → the model's size class. -/
 namespace Driver.Alloc
-def run (_args : List String) : IO UInt32 := do
-  IO.eprintln "drv_alloc: not implemented"
-  return 2
+open MythVerif MythVerif.Ledger
+
+structure Cls where
+  name : String
+  st : St
+  real : List (Nat × String)      -- model address ↦ real address
+
+structure Acc where
+  cls : List Cls := []
+  line : Nat := 0
+  accepted : Nat := 0
+  err : Option String := none
+
+def className (pt : String) (v : Int) : String :=
+  if pt.startsWith "DESC" then "desc"
+  else if v == 0 then "stack-default"
+  else s!"stack-class{SizeClass.sizeToIndex (SizeClass.roundPage v.toNat)}"
+
+def feed (acc : Acc) (line : String) : Acc :=
+  if acc.err.isSome then acc else
+  let acc := { acc with line := acc.line + 1 }
+  match Driver.parseEv line, Driver.rawAddr line with
+  | some e, some raw =>
+    if !(e.pt == "DESC_GET" || e.pt == "DESC_FREE" || e.pt == "STACK_GET" || e.pt == "STACK_FREE") then acc else
+    let cn := className e.pt e.v
+    let c := (acc.cls.find? (·.name == cn)).getD { name := cn, st := init, real := [] }
+    let put (c' : Cls) := { acc with cls := c' :: acc.cls.filter (·.name != cn), accepted := acc.accepted + 1 }
+    if e.pt.endsWith "GET" then
+      match step c.st (.get e.part) with
+      | some (st', some a) =>
+        match c.real.find? (·.1 == a) with
+        | some (_, r) =>
+          if r == raw then put { c with st := st' }
+          else { acc with err := some s!"MISMATCH line {acc.line}: {cn}: worker {e.part} was handed block {raw}, the model's free list head is {r}" }
+        | none =>
+          if c.real.any (·.2 == raw) then
+            { acc with err := some s!"MISMATCH line {acc.line}: {cn}: block {raw} handed out as fresh but it is already known (in use or on a free list)" }
+          else put { c with st := st', real := (a, raw) :: c.real }
+      | _ => { acc with err := some s!"MISMATCH line {acc.line}: ledger get impossible" }
+    else
+      match c.real.find? (·.2 == raw) with
+      | none => { acc with err := some s!"MISMATCH line {acc.line}: {cn}: release of block {raw} that was never handed out" }
+      | some (a, _) =>
+        match step c.st (.free e.part a) with
+        | some (st', _) => put { c with st := st' }
+        | none => { acc with err := some s!"MISMATCH line {acc.line}: {cn}: block {raw} released while not in use (double release)" }
+  | _, _ => acc
+
+def runSizeClass : IO UInt32 := do
+  let stdin ← IO.getStdin
+  let _ ← Driver.forLines stdin () fun _ line => do
+    match Driver.words line with
+    | ["idx", n] =>
+      match n.toNat? with
+      | some n => IO.println s!"{SizeClass.sizeToIndex n} {SizeClass.rsize (SizeClass.sizeToIndex n)}"
+      | none => IO.println "bad-op"
+    | ["stack", b, n] =>
+      match b.toNat?, n.toNat? with
+      | some b, some n => IO.println s!"{SizeClass.roundPage n} {SizeClass.stackTop b n - b}"
+      | _, _ => IO.println "bad-op"
+    | _ => IO.println "bad-op"
+  return 0
+
+def run (args : List String) : IO UInt32 := do
+  if args.contains "sizeclass" then return (← runSizeClass)
+  let stdin ← IO.getStdin
+  let acc ← Driver.forLines stdin ({} : Acc) fun a line => pure (feed a line)
+  match acc.err with
+  | some e => IO.println e; return 0
+  | none =>
+    let inuse := acc.cls.map (fun c => s!"{c.name}:{c.st.owned.length}/{c.st.fresh}/{c.st.peak}")
+    IO.println s!"accepted {acc.accepted} inuse/fresh/peak {Driver.joinSp inuse}"
+    return 0
+
 end Driver.Alloc
